@@ -290,6 +290,58 @@ def case_held_open(case):
     return {"v": v[:4], "nt": True, "n": 2, "obs": {"second_save": outcome}}
 
 
+def case_concurrent_saves(case):
+    """two forked workers of one session (the way a pool forks them) save DIFFERENT result sets to DIFFERENT files in one
+    directory at the same time - every interleaving of their file-level operations (renames, removals, opens of files in that
+    directory) with at most two preemptions.  Afterwards each file holds the set that was saved to it."""
+    from bldfm.io import load_footprints_from_netcdf, save_footprints_to_netcdf
+    from vf import procsched
+
+    sets = [build(HIST_SETS[k]) for k in case["sets"]]
+
+    def make_workers(wd):
+        def mk(k):
+            def run():
+                cfg, res, x, y, zl = sets[k]
+                procsched.point("save-begin")
+                save_footprints_to_netcdf(res, cfg, os.path.join(wd, "results_%d.nc" % k))
+                procsched.point("save-end")
+                return k
+            return run
+        return [mk(k) for k in range(len(sets))]
+
+    def oracle(wd, trace, results):
+        msgs = []
+        for k, r in enumerate(results):
+            cfg, res, x, y, zl = sets[k]
+            path = os.path.join(wd, "results_%d.nc" % k)
+            if r is None or r[0] != "ok":
+                msgs.append("worker %d: save %s" % (k, "died" if r is None else "raised " + r[1]))
+                continue
+            try:
+                ds = load_footprints_from_netcdf(path)
+            except Exception as e:  # noqa
+                msgs.append("file %d cannot be loaded after its save returned (%s: %s)" % (k, type(e).__name__, str(e)[:80]))
+                continue
+            try:
+                _compare_loaded(ds, cfg, res, x, y, zl, HIST_SETS[case["sets"][k]]["threed"], lambda sub, msg: msgs.append("file %d [%s] %s" % (k, sub, msg[:160])))
+            except Exception as e:  # noqa
+                msgs.append("file %d does not have the structure of the set saved to it (%s: %s)" % (k, type(e).__name__, str(e)[:80]))
+            finally:
+                ds.close()
+        stray = [f for f in os.listdir(wd) if not f.startswith("results_")]
+        if stray:
+            msgs.append("left behind in the output directory: %r" % stray)
+        return msgs[:4]
+
+    out = procsched.explore(make_workers, oracle, bound=2, max_executions=5000)
+    if out["capped"]:
+        raise core.HarnessError("interleaving exploration hit its cap")
+    v = [{"sub": "concurrent-saves", "sig": "concurrent-saves", "msg": "two workers saving sets %r to two files of one directory, schedule %s (operations %s): %s" % (case["sets"], "".join(map(str, sched)), [(k, o) for k, o, _ in trace if o != "start"][:16], "; ".join(msgs[:3])), "schedule": sched}
+         for sched, trace, msgs in out["violations"][:3]]
+    return {"v": v, "nt": out["distinct_traces"] >= 2, "n": out["executions"], "obs": {"executions": out["executions"], "distinct_interleavings": out["distinct_traces"], "steps_per_execution": out["max_steps"]}}
+
+
 def case_solver(case):
     from bldfm.config_parser import parse_config_dict
     from bldfm.interface import run_bldfm_multitower
@@ -328,5 +380,6 @@ def run(ctx):
     ctx.run_cases(case_history, hist, sub="same-path-histories")
     ctx.run_cases(case_held_open, [{"sets": [a_, b_], "hold": h_, "path_form": pf_} for a_, b_ in itertools.permutations(range(len(HIST_SETS)), 2) for h_ in (True, False) for pf_ in ("str", "Path")],
                   sub="save onto a file an earlier load still holds open")
+    core.run_forked(ctx, case_concurrent_saves, [{"sets": [0, 1]}, {"sets": [2, 3]}, {"sets": [1, 1]}], sub="two workers saving into one directory (all interleavings, <= 2 preemptions)", nproc=4, timeout=1800)
     sc = [{"threed": a, "forcing": b, "footprint": c, "prec": d} for a, b, c, d in itertools.product((False, True), ("ustar", "z0"), (True, False), ("single", "double"))]
     ctx.run_cases(case_solver, sc, sub="solver-produced", chunksize=1)
